@@ -120,15 +120,47 @@ class RecLock:
         return self.real._is_owned()
 
 
+_STATE = {"deadlock_seen": False}
+
+
+def T(long):
+    """Timeout for something that must happen: generous, but short once a deadlock was seen in this run
+    (a non-re-entrant lock makes every nested call hang; one long wait is enough to establish that)."""
+    return 0.25 if _STATE["deadlock_seen"] else long
+
+
+def guarded(fn, timeout):
+    """Run fn() in a daemon thread; (finished, result | None).  A call that never returns (deadlock)
+    leaves the thread behind and is reported, it does not hang the check."""
+    box = {}
+
+    def body():
+        try:
+            box["res"] = fn()
+        except BaseException as e:  # noqa: BLE001
+            box["res"] = _err(e)
+
+    th = threading.Thread(target=body, daemon=True)
+    th.start()
+    th.join(timeout)
+    if th.is_alive():
+        _STATE["deadlock_seen"] = True
+        return False, None
+    return True, box.get("res")
+
+
 def record(tree, fn):
-    """Run fn() with recording armed for `tree` in this thread; (raw trace, result)."""
-    _ARM.update(tree=tree, log=[], tid=threading.get_ident())
-    try:
-        res = fn()
-    finally:
-        log = _ARM["log"]
-        _ARM.update(tree=None, log=None, tid=None)
-    return log, res
+    """Run fn() (guarded) with recording armed for `tree` in the thread that runs it;
+    (raw trace, result, finished)."""
+    log: list = []
+
+    def body():
+        _ARM.update(tree=tree, log=log, tid=threading.get_ident())
+        return fn()
+
+    finished, res = guarded(body, T(3.0))
+    _ARM.update(tree=None, log=None, tid=None)
+    return list(log), res, finished
 
 
 def collapse(tr):
@@ -277,6 +309,11 @@ def label_of(tree, op):
         if meth in c.__dict__:
             return {"Tree": "tree", "TypedTree": "typed"}.get(c.__name__, c.__name__.lower()) + "_" + meth
     return "?" + meth
+
+
+def run_op_guarded(tree, op, tmp):
+    ok, res = guarded(lambda: run_op(tree, op, tmp), T(3.0))
+    return res if ok else "ERR:hang"
 
 
 def run_op(tree, op, tmp):
@@ -648,12 +685,16 @@ class Prop:
         tree = build_tree(desc["typed"], desc["shape"])
         label = label_of(tree, desc["op"])
         tree._lock = RecLock(tree._lock, tree)
-        raw, res = record(tree, lambda: run_op(tree, desc["op"], tmp))
-        return tree, label, collapse(raw), len(raw), res
+        raw, res, finished = record(tree, lambda: run_op(tree, desc["op"], tmp))
+        return tree, label, collapse(raw), len(raw), (res if finished else None)
 
     def run_trace(self, desc, tmp):
         tree, label, tr, nraw, res = self._traced(desc, tmp)
         fail = trace_oracle(tr, label)
+        if res is None:
+            fail = (f"trace: {label} [{''.join(EV_NAMES[e] for e in tr)}]: the operation does not return "
+                    "(it blocks on the lock its own thread holds: the lock is not re-entrant)")
+        res = res or "ERR:hang"
         coq = f"CTrace {H.coq_text(label)} {H.coq_list(str(e) for e in tr)}"
         return Case(desc=desc, coq_input=coq, impl_obs=trace_obs(tr), oracle_fail=fail, nontrivial=R in tr,
                     key=H.digest(desc), stats=dict(kind="trace", label=label, trace="".join(EV_NAMES[e] for e in tr),
@@ -666,7 +707,7 @@ class Prop:
         _, label, tr, _, _ = self._traced(desc, tmp)
         tree = build_tree(typed, desc["shape"])
         usable = not (typed and op in TYPED_RESULT_UNUSABLE)
-        r0 = run_op(tree, op, tmp)
+        r0 = run_op_guarded(tree, op, tmp)
         parked, go, started, done = (threading.Event() for _ in range(4))
         box = {}
 
@@ -692,18 +733,18 @@ class Prop:
         tw = threading.Thread(target=writer, daemon=True)
         tr_ = threading.Thread(target=reader, daemon=True)
         tw.start()
-        parked_ok = parked.wait(5 if not _STATE["deadlock_seen"] else 0.5)
-        tr_.start()
-        started.wait(5)
-        early = done.wait(0.12)            # must NOT happen; a slow reader is merely not detected
-        go.set()
-        tw.join(10)
-        late = done.wait(10)
-        tr_.join(1)
+        parked_ok = parked.wait(T(5))
         if not parked_ok:
             _STATE["deadlock_seen"] = True
+        tr_.start()
+        started.wait(T(5))
+        early = done.wait(0.12)            # must NOT happen; a slow reader is merely not detected
+        go.set()
+        tw.join(T(10))
+        late = done.wait(T(10))
+        tr_.join(T(1))
         free = pool(1)[0].call(lambda: (tree._lock.acquire(blocking=False) and (tree._lock.release() or True)) or False)
-        rfin = run_op(tree, op, tmp) if free else "ERR:locked"
+        rfin = run_op_guarded(tree, op, tmp) if free else "ERR:locked"
         res = box.get("res")
         cands = {0: r0, nw1: box.get("mid"), nw1 + nw2: rfin}
         seen = [v for v, r in sorted(cands.items()) if r is not None and r == res]
@@ -735,7 +776,7 @@ class Prop:
         _, label, tr, _, _ = self._traced(desc, tmp)
         tree = build_tree(typed, desc["shape"])
         usable = not (typed and op in TYPED_RESULT_UNUSABLE)
-        r0 = run_op(tree, op, tmp)
+        r0 = run_op_guarded(tree, op, tmp)
         op_done, probe_done, finished = (threading.Event() for _ in range(3))
         box = {}
 
@@ -756,7 +797,7 @@ class Prop:
 
         to = threading.Thread(target=owner, daemon=True)
         to.start()
-        op_ok = op_done.wait(3 if not _STATE["deadlock_seen"] else 0.3)
+        op_ok = op_done.wait(T(3))
         if not op_ok:
             _STATE["deadlock_seen"] = True
         contender = pool(1)[0]
@@ -769,7 +810,7 @@ class Prop:
 
         mid_granted = contender.call(probe)
         probe_done.set()
-        fin = finished.wait(3 if op_ok else 0.3)
+        fin = finished.wait(T(3) if op_ok else 0.25)
         end_granted = contender.call(probe)
         res = box.get("res")
         seen = [0] if (res == r0 or (not usable and res is not None)) else [-1]
@@ -791,8 +832,6 @@ class Prop:
         return Case(desc=desc, coq_input=coq, impl_obs=[trace_obs(tr), obs_run], oracle_fail=fail, nontrivial=R in tr,
                     key=H.digest(desc), stats=dict(kind="owner", label=label, nest=nest))
 
-
-_STATE = {"deadlock_seen": False}
 
 CORPUS = [
     # D38: TypedTree.save collected the kinds by iterating the tree BEFORE taking the lock (trace R A R L)
